@@ -9,7 +9,7 @@
    no triangle is degenerate, no directed edge is used twice and the reverse of every used directed edge is
    used too — i.e. a closed (boundaryless, 2-manifold-edged), consistently oriented surface. *)
 From PF Require Import Gen.Closed Gen.ClosedProofs Gen.FamilyProofs Gen.Sphere Gen.Hemisphere Gen.Cylinder Gen.Cube
-  Gen.CylinderProofs Gen.SphereProofs Gen.CubeProofs Gen.CylinderGeom Gen.SphereGeom Gen.CylinderVolume Gen.CylinderMono Gen.SphereVolume Gen.HemiVolume Gen.CubeClasses Gen.VolumeLimits Gen.CubeTableProofs Gen.GenProofs.
+  Gen.CylinderProofs Gen.SphereProofs Gen.CubeProofs Gen.CylinderGeom Gen.SphereGeom Gen.CylinderVolume Gen.CylinderMono Gen.SphereVolume Gen.HemiVolume Gen.CubeClasses Gen.VolumeLimits Gen.CubeTableProofs Gen.Solids Gen.GenProofs.
 From Coq Require Import Reals.
 Open Scope N_scope.
 
@@ -406,6 +406,60 @@ Print Assumptions cube_table_outward.
 Theorem cube_table_same_surface : canon_tris cube_table = canon_tris cubeW_idx.
 Proof. exact CubeTableProofs.cube_table_same_surface. Qed.
 Print Assumptions cube_table_same_surface.
+
+(* ================= the property sentence, one theorem per solid =================
+   Every clause for that primitive in one statement (composed from the theorems above): closed + consistently oriented once
+   coincident positions are merged, well-formed indices, every face outward, supplied vertex normals on the outer side,
+   enclosed volume = the inscribed polyhedron's (closed form), positive, below the analytic volume and within an explicit
+   O(1/resolution^2) of it.  Positions are the generators' formulas over R (the float positions are the harness's oracle). *)
+Theorem uvsphere_solid : forall r c rad, (2 <= r)%N -> (3 <= c)%N -> 0 < rad ->
+  closed_idx sphere_cls (sphere_idx r c) /\ closed_idx (sphereU_cls r c) (sphereU_idx r c) /\
+  wf_idx (sphere_nverts r c) (sphere_idx r c) /\ wf_idx (sphereU_nverts r c) (sphereU_idx r c) /\
+  tris_of (map (sphU_posR r c rad) (sphereU_idx r c)) = sph_trisR r c rad /\
+  Forall (rfaces_away rzero) (sph_trisR r c rad) /\ Forall corners_outer (sph_trisR r c rad) /\
+  rvol6 (sph_trisR r c rad) / 6 = NR c * sin (2 * PI / NR c) * (1 + cos (PI / NR r)) / 3 * (rad * rad * rad) /\
+  0 < rvol6 (sph_trisR r c rad) / 6 < 4 / 3 * PI * (rad * rad * rad) /\
+  4 / 3 * PI * (rad * rad * rad) - rvol6 (sph_trisR r c rad) / 6
+    <= PI * PI * PI * (rad * rad * rad) * (8 / (9 * (NR c * NR c)) + 1 / (3 * (NR r * NR r))).
+Proof. exact Solids.uvsphere_solid. Qed.
+Print Assumptions uvsphere_solid.
+
+Theorem hemisphere_solid : forall r c rad, (2 <= r)%N -> (3 <= c)%N -> 0 < rad ->
+  closed_idx hemi_cls (hemi_idx r c) /\ wf_idx (hemi_nverts r c) (hemi_idx r c) /\
+  (forall y, 0 < y ->
+     hemi_trisR r c rad = map (hemi_triR r c rad) (sph_ps r c) /\
+     (forall p, In p (sph_ps r c) -> is_base p = false -> rfaces_away rzero (hemi_triR r c rad p)) /\
+     (forall i, (i < c)%N -> rfaces_away (0, y, 0) (hemi_triR r c rad (TF i)))) /\
+  (let h := PI / (2 * NR r) in
+   rvol6 (hemi_trisR r c rad) / 6 =
+     NR c * sin (2 * PI / NR c) * (sin (2 * h) * sin (2 * h) + (1 + cos h) * cos (2 * h)) / 6 * (rad * rad * rad)) /\
+  0 < rvol6 (hemi_trisR r c rad) / 6 <= 2 / 3 * PI * (rad * rad * rad) /\
+  2 / 3 * PI * (rad * rad * rad) - rvol6 (hemi_trisR r c rad) / 6
+    <= PI * PI * PI * (rad * rad * rad) * (4 / (9 * (NR c * NR c)) + 3 / (8 * (NR r * NR r))).
+Proof. exact Solids.hemisphere_solid. Qed.
+Print Assumptions hemisphere_solid.
+
+Theorem cylinder_solid : forall n rad h, (3 <= n)%N -> 0 < rad -> 0 < h ->
+  closed_idx (cyl_cls n) (cyl_idx n) /\ wf_idx (cyl_nverts n) (cyl_idx n) /\
+  Forall (rfaces_away rzero) (cyl_trisR n rad h) /\
+  Forall pn_outer (tris_of (map (fun v => (cyl_posR n rad h v, cyl_nrmR n v)) (cyl_idx n))) /\
+  rvol6 (cyl_trisR n rad h) / 6 = NR n * (rad * rad * sin (2 * PI / NR n) / 2) * h /\
+  0 < rvol6 (cyl_trisR n rad h) / 6 < PI * rad * rad * h /\
+  PI * rad * rad * h - rvol6 (cyl_trisR n rad h) / 6 <= PI * rad * rad * h * (2 * (PI * PI) / (3 * (NR n * NR n))).
+Proof. exact Solids.cylinder_solid. Qed.
+Print Assumptions cylinder_solid.
+
+Theorem box_solid : forall w h d, 0 < w -> 0 < h -> 0 < d ->
+  closed_idx cubeW_cls cubeW_idx /\ closed_idx cubeQ_cls cubeQ_idx /\
+  wf_idx cubeW_nverts cubeW_idx /\ wf_idx cubeQ_nverts cubeQ_idx /\
+  Forall (rfaces_away rzero) (tri_pos (cubeW_posR (w / 2) (h / 2) (d / 2)) cubeW_idx) /\
+  Forall (rfaces_away rzero) (tri_pos (cubeQ_posR (w / 2) (h / 2) (d / 2)) cubeQ_idx) /\
+  normals_outer (cubeW_posR (w / 2) (h / 2) (d / 2)) (cubeW_posR (w / 2) (h / 2) (d / 2)) cubeW_idx /\
+  normals_outer (cubeQ_posR (w / 2) (h / 2) (d / 2)) cubeQ_nrmR cubeQ_idx /\
+  rvol6 (tri_pos (cubeW_posR (w / 2) (h / 2) (d / 2)) cubeW_idx) / 6 = w * h * d /\
+  rvol6 (tri_pos (cubeQ_posR (w / 2) (h / 2) (d / 2)) cubeQ_idx) / 6 = w * h * d.
+Proof. exact Solids.box_solid. Qed.
+Print Assumptions box_solid.
 
 (* ---------- coincidence classes of the boxes derived from the real positions ---------- *)
 (* two of the 24 corners of the six-quad box are the same point exactly when cubeQ_cls merges them; the welded
